@@ -41,6 +41,31 @@ def modules():
     return _modules
 
 
+def independent_modules():
+    """The number modules found by walking the package directory (not by stdnum.util.get_number_modules):
+    every stdnum/**/x.py whose imported module is itself (aliases excluded) and has validate()."""
+    import importlib
+    load_stdnum()
+    base = os.path.join(REPO, 'stdnum')
+    out = []
+    for root, dirs, files in os.walk(base):
+        dirs.sort()
+        for f in sorted(files):
+            if not f.endswith('.py') or f == '__init__.py':
+                continue
+            rel = os.path.relpath(os.path.join(root, f), base)[:-3].replace(os.sep, '.')
+            try:
+                with warnings.catch_warnings():
+                    warnings.simplefilter('ignore')
+                    m = importlib.import_module('stdnum.' + rel)
+            except Exception:
+                continue
+            if getattr(m, '__name__', '') == 'stdnum.' + rel and hasattr(m, 'validate'):
+                out.append((rel, m))
+    out.sort(key=lambda t: t[0])
+    return out
+
+
 def module(name):
     for n, m in modules():
         if n == name:
